@@ -272,11 +272,28 @@ class MeshCase:
         return boxes
 
     def check_floats(self, site):
+        seen = ({}, {})  # logical coordinate -> float actually used
+        tol_t = 1e-12 * abs(self.ts[-1] - self.ts[0])
+        tol_x = 1e-12 * abs(self.xs[-1] - self.xs[0])
         for e in self.impl_leaves():
             b = self.box_of(e)
             t0, t1, x0, x1 = self.phys(b)
-            if tuple(e.time_interval) != (t0, t1) or tuple(
-                    e.space_interval) != (x0, x1):
+            # no gap and no overlap at float level: every leaf touching a
+            # logical coordinate uses bit-for-bit the same float for it
+            for ax, c, v in ((0, b[0], e.time_interval[0]),
+                             (0, b[1], e.time_interval[1]),
+                             (1, b[2], e.space_interval[0]),
+                             (1, b[3], e.space_interval[1])):
+                w = seen[ax].setdefault(c, v)
+                if w != v:
+                    raise Finding('tiling', site, {
+                        'leaf': repr(e),
+                        'why': 'gap/overlap: two floats for one mesh line',
+                        'values': (w, v)
+                    })
+            got = (*e.time_interval, *e.space_interval)
+            if (abs(got[0] - t0) > tol_t or abs(got[1] - t1) > tol_t
+                    or abs(got[2] - x0) > tol_x or abs(got[3] - x1) > tol_x):
                 raise Finding(
                     'geometry', site, {
                         'leaf': repr(e),
@@ -289,7 +306,10 @@ class MeshCase:
                     'leaf': repr(e),
                     'levels': e.levels
                 })
-            if e.h_t != t1 - t0 or e.h_x != x1 - x0:
+            t0, t1 = e.time_interval
+            x0, x1 = e.space_interval
+            if abs(e.h_t - (t1 - t0)) > tol_t or abs(e.h_x -
+                                                      (x1 - x0)) > tol_x:
                 raise Finding('geometry', site, {
                     'leaf': repr(e),
                     'why': 'h_t/h_x'
@@ -337,26 +357,18 @@ class MeshCase:
         gi = [e.glob_idx for e in allel]
         if len(set(gi)) != len(gi):
             raise Finding('bookkeeping', site, {'why': 'glob_idx not unique'})
-        if mesh.N_elements != len(allel):
-            raise Finding('bookkeeping', site, {
-                'why': 'N_elements',
-                'N_elements': mesh.N_elements,
-                'elements': len(allel)
-            })
         seen = {}
         for k, v in enumerate(mesh.vertices):
-            if v.idx != k:
-                raise Finding('bookkeeping', site, {'why': 'vertex idx'})
             if (v.t, v.x) in seen:
                 raise Finding('vertices', site, {
                     'why': 'two vertices share coordinates',
                     'tx': (v.t, v.x)
                 })
             seen[(v.t, v.x)] = k
+        vid = {id(v) for v in mesh.vertices}
         for e in leaves:
             for v in e.vertices:
-                if v.idx < 0 or v.idx >= len(
-                        mesh.vertices) or mesh.vertices[v.idx] is not v:
+                if id(v) not in vid:
                     raise Finding('bookkeeping', site,
                                   {'why': 'leaf vertex not in vertex list'})
 
